@@ -253,9 +253,13 @@ func (li *limInst) alphabet(level int, withZero, withHuge bool) []sample {
 				}
 			}
 		}
-		if level > 0 {
+		if level > 0 && withHuge {
+			// (a 2^62 ns request also pushes the wrapper's next update 146 years out: only for properties
+			// that ask about bounds and panics, not for those that need windows to keep closing)
 			add(sample{rtt: 1 << 62, inflight: math.MaxInt32, drop: false, gap: 2e8})
 			add(sample{rtt: 1 << 62, inflight: 5, drop: false, gap: 0}) // stays in the window: two of them overflow its RTT sum
+		}
+		if level > 0 && withZero {
 			add(sample{rtt: 0, inflight: 11, drop: true, gap: 2e8})
 		}
 		return out
